@@ -38,6 +38,9 @@ class CContract:
         self.hints = dict(kw.pop("hints", {}))
         self.asserts = dict(kw.pop("asserts", {}))       # loop key (end of body) or "end" -> [proof steps: proved, then assumed]
         self.note = kw.pop("note", "")
+        # `x++` statements that only count iterations of a loop whose termination is not proved: text -> reason.  Their overflow
+        # obligation is not generated; the reason is listed in the evidence (termination is outside partial correctness)
+        self.iteration_counters = dict(kw.pop("iteration_counters", {}))
         self.nothrow = kw.pop("nothrow", True)
         if kw:
             raise TypeError("unknown contract fields %s" % list(kw))
@@ -167,7 +170,7 @@ BASE_NS = {
     "implies": lambda a, b: z3.Implies(smt.boolean(a), smt.boolean(b)),
     "iff": lambda a, b: smt.boolean(a) == smt.boolean(b),
     "ite": lambda c, a, b: z3.If(smt.boolean(c), *_both(a, b)),
-    "forall": smt.forall, "exists": smt.exists,
+    "forall": smt.forall, "exists": smt.exists, "forall2": smt.forall2,
     "real": smt.real, "toint": smt.floor_int, "floor": lambda x: z3.ToReal(smt.floor_int(x)),
     "is_int": lambda x: z3.IsInt(smt.real(x)),
     "rne": lambda x: smt.rne_u(smt.real(x)), "rne_exact": smt.rne_exact,
@@ -273,6 +276,7 @@ CONC_NS = {
     "implies": lambda a, b: (not a) or bool(b), "iff": lambda a, b: bool(a) == bool(b),
     "forall": lambda lo, hi, body, name="q": all(bool(body(q)) for q in range(lo, hi)),
     "exists": lambda lo, hi, body, name="q": any(bool(body(q)) for q in range(lo, hi)),
+    "forall2": lambda lo, hi, body, name="q": all(bool(body(a, b)) for a in range(lo, hi) for b in range(lo, hi)),
     "real": _fr, "toint": lambda x: _math.floor(_fr(x)), "floor": lambda x: _math.floor(_fr(x)),
     "is_int": lambda x: _fr(x) == _math.floor(_fr(x)),
     "rne": _crne, "rne_exact": _crne,
